@@ -40,6 +40,9 @@ CHECKS["C09"] = dict(engine="explorer", technique="exhaustive enumeration of req
 CHECKS["C17"] = dict(engine="explorer", technique="bounded exhaustive fault placement: stateless DFS over which extension hooks panic (with which kind of value) and over the iteration order of the finish-function maps, oracle on each extension's event log",
    text="6 request outcomes (syntax error, validation error, variable error, field error, success, panicking resolver) x 1-3 extensions x every placement of <= 3 (4) deviations (2/3 with three extensions) among: a hook of any extension (Init, Parse/Validation/Execution/ResolveField start and finish, HasResult, GetResult) panicking with an error, a string or a struct, and a permuted iteration of a finish-function map. Oracle per extension: phases in pipeline order, properly nested, every started phase finished exactly once, the full expected log with the right finish arguments when nothing panics; every panic is reported as an error naming the extension; nothing escapes Do; every hook and resolver receives the caller's context.",
    ref="5 C17", note="Finish-map iteration order comes from the instrumenter's map-range seam.")
+CHECKS["C06"] = dict(engine="bfs", technique="explicit-state breadth-first search over histories of cache operations on real PlanCache instances (state = dump of private state reached by replaying its shortest history on a fresh cache), differential oracle at every transition",
+   text="7 configurations (MaxEntries 1, 2, default x Normalize off/on, nil cache) x operations Get+ExecutePlan over a pool of 29 requests built in colliding pairs (one literal, a directive, a default value, an alias, argument order, enum literals, repeated fields, strings mimicking the key encoding, literals inside fragments, operation names incl. unknown, a user variable named like a synthetic one, variable types differing in bracket placement, abstract positions) x 2 schema pointers x variable assignments, Reset and over-size Get, to depth 3 (4) for small caches and 2 (3) for the default size. At every transition: response through the cache == response from scratch (data, messages, paths); synthetic arguments do not clash with the request's; the same request from scratch still gives its answer afterwards; len(entries) <= MaxEntries; list and map agree; hits+misses grew by the number of lookups. Resolvers answer with the arguments they received and scribble on the map afterwards. Plus every sequence of 3 executions of one prepared plan with different variables.",
+   ref="5 C06", note="State canonicalisation through the read-only dump hook in the overlay (verif_dump.go); error locations are not compared (they may refer to the normalised document).")
 NOT_YET = {}
 ALL = ["C%02d" % i for i in range(1, 21)]
 
